@@ -17,6 +17,12 @@
 //	tlvlen  every BigSize type/length prefix of every TLV record found in the seed replaced
 //	        by each non-minimal form and by {v-1, v+1, 0, 0xfc, 0xfd, 0xffff, 0x10000, 2^32, 2^64-1}
 //	splice  seed_i[:k] + seed_{i+1}[k:] for every k (consecutive seeds of one codec)
+//	field   every integer field of the fullest value swept over special values (field_test.go)
+//	resize  every length-delimited region resized with consistent prefixes (resize_test.go)
+//	extrec  every single / pair (thorough: triple) of unknown records of structurally special
+//	        type and length merged in canonical order into the extension TLV stream of every
+//	        message type's bases; decode -> encode identity and value -> bytes -> value
+//	        equality (extrec_test.go)
 //
 // Each input goes through the oracle of oracle_test.go. The enumeration runs in worker
 // processes (GOMAXPROCS=1 each, so the allocation accounting is exact, and so that a
@@ -136,6 +142,15 @@ func buildPlan(co *corpus, thorough bool) []item {
 			add(item{Codec: ci, Seed: si, Family: "ins", cost: int64(min(n, 400)) * 2 * per})
 			add(item{Codec: ci, Seed: si, Family: "tlvlen", cost: 300 * per})
 			add(item{Codec: ci, Seed: si, Family: "resize", cost: 2500 * per})
+			if cc.c.kind == kMsg && n <= xrMaxBase {
+				// extension records: every message type x every byte-mutated seed
+				// (zero message, fullest / emptiest example, ...); see extrec_test.go
+				xc := int64(3000)
+				if thorough {
+					xc = 40000
+				}
+				add(item{Codec: ci, Seed: si, Family: "extrec", cost: xc * per * 3})
+			}
 			if prev >= 0 && n <= 2048 && len(cc.seeds[prev].full) <= 2048+2 {
 				add(item{Codec: ci, Seed: prev, Seed2: si, Family: "splice", cost: int64(n) * per})
 			}
@@ -410,6 +425,8 @@ type itemResult struct {
 	Triples       int64            `json:"triples"`
 	ResizeTargets int64            `json:"resize_targets"`
 	Oversize      int64            `json:"oversize_skipped"`
+	XrCases       int64            `json:"extrec_cases"`
+	XrBases       int64            `json:"extrec_bases"`
 	Samples       []any            `json:"samples,omitempty"`
 }
 
@@ -424,6 +441,7 @@ type replayCase struct {
 	Family string         `json:"family,omitempty"`
 	Field  string         `json:"field,omitempty"` // field family: path of the swept field
 	Value  string         `json:"value,omitempty"` // field family: raw value (decimal)
+	Recs   []xrec         `json:"recs,omitempty"`  // extrec family: the records merged into the base (Seed / Desc)
 }
 
 type worker struct {
@@ -443,6 +461,10 @@ type worker struct {
 	curSeed   *seed
 	canonSeen int64
 	lastOrd   int
+	nViol     int64            // violations reported by this worker so far (all classes)
+	lastB2    []byte           // evalBytes: the re-encoding of the last accepted input
+	xr        map[int]*xrCodec // extrec family: per-codec alphabet cache
+	itemSigs  map[string]bool  // signatures already recorded for the current item
 }
 
 func (w *worker) info(format string, a ...any) {
@@ -454,9 +476,17 @@ func (w *worker) info(format string, a ...any) {
 func (w *worker) viol(c *codec, class, what string, rc replayCase) {
 	rc.Half = "lnwire"
 	rc.Codec = c.name
+	w.nViol++
 	w.res.Outcomes["VIOL-"+strings.SplitN(class, ":", 2)[0]]++
-	if len(w.res.Viols) < 40 {
-		w.res.Viols = append(w.res.Viols, violRec{Sig: "lnwire:" + c.name + ":" + class, What: what, Replay: rc})
+	// one record per distinct signature and item (the parent de-duplicates by signature
+	// anyway), so that a frequent class cannot crowd a rare one out of the cap
+	sig := "lnwire:" + c.name + ":" + class
+	if w.itemSigs == nil {
+		w.itemSigs = map[string]bool{}
+	}
+	if !w.itemSigs[sig] && len(w.res.Viols) < 400 {
+		w.itemSigs[sig] = true
+		w.res.Viols = append(w.res.Viols, violRec{Sig: sig, What: what, Replay: rc})
 	}
 	w.info("VIOLATION-CLASS %s: %s", class, what)
 }
@@ -566,6 +596,7 @@ func (w *worker) evalBytes(c *codec, m func() bytemut.Mut, body []byte, precise 
 		w.viol(c, class, fmt.Sprintf("input %s decoded to %T but re-encoding failed: %v", hexs(full, 64), v, err), w.bytesCase(c, m, body))
 		return true
 	}
+	w.lastB2 = append(w.lastB2[:0], b2...)
 	if c.kind == kMsg && len(b2)-2 > lnwire.MaxMsgBody {
 		w.viol(c, "encode-oversize", fmt.Sprintf("re-encoding of %s is %d bytes", hexs(full, 64), len(b2)), w.bytesCase(c, m, body))
 	}
@@ -740,6 +771,7 @@ func (w *worker) runItem(it item, resumeAfter int) *itemResult {
 	res := &itemResult{Idx: it.Idx, Outcomes: map[string]int64{}}
 	defer func() { res.Secs = time.Since(t0).Seconds() }()
 	w.res = res
+	w.itemSigs = nil
 	w.curItem = it
 	w.curSeed = nil
 	cc := w.co.codecs[it.Codec]
@@ -770,6 +802,10 @@ func (w *worker) runItem(it item, resumeAfter int) *itemResult {
 	}
 	if it.Family == "field" {
 		w.sweepField(c, w.curSeed, it.Arg, resumeAfter, nil)
+		return res
+	}
+	if it.Family == "extrec" {
+		w.runExtrec(cc, w.curSeed, resumeAfter, nil)
 		return res
 	}
 	// allocation accounting: precise per decode for large inputs; for small ones the
@@ -1027,6 +1063,8 @@ type agg struct {
 	sampleFams                 map[string]int
 	secsFam                    map[string]float64
 	secsCodec                  map[string]float64
+	xrCases, xrBases           int64
+	xrPerCodec                 map[string]int
 }
 
 func TestC10Lnwire(t *testing.T) {
@@ -1093,11 +1131,15 @@ func TestC10Lnwire(t *testing.T) {
 		}
 	}
 	onlyCodec := os.Getenv("VERIF_C10_CODEC") // debugging aid: substring filter
+	onlyFam := os.Getenv("VERIF_C10_FAMILY")  // debugging aid: exact family name
 
 	// most expensive first, rotated by VERIF_SEED (work assignment only)
 	order := make([]int, 0, len(plan))
 	for i, it := range plan {
 		if onlyCodec != "" && !strings.Contains(co.codecs[it.Codec].c.name, onlyCodec) {
+			continue
+		}
+		if onlyFam != "" && it.Family != onlyFam {
 			continue
 		}
 		order = append(order, i)
@@ -1118,7 +1160,7 @@ func TestC10Lnwire(t *testing.T) {
 	var pending atomic.Int64
 	pending.Store(int64(len(order)))
 
-	a := &agg{sweptTypes: map[string]int{}, sampleFams: map[string]int{}, secsFam: map[string]float64{}, secsCodec: map[string]float64{}, sigs: map[string]int{}, allocCodec: map[string]uint64{}, outcomes: map[string]int64{}, perCodec: map[string][2]int64{}, allocMax: map[string]uint64{}, allocMaxAt: map[string]string{}, capsHit: []string{}}
+	a := &agg{xrPerCodec: map[string]int{}, sweptTypes: map[string]int{}, sampleFams: map[string]int{}, secsFam: map[string]float64{}, secsCodec: map[string]float64{}, sigs: map[string]int{}, allocCodec: map[string]uint64{}, outcomes: map[string]int64{}, perCodec: map[string][2]int64{}, allocMax: map[string]uint64{}, allocMaxAt: map[string]string{}, capsHit: []string{}}
 	var hashFiles []string
 	var hfMu sync.Mutex
 	var broken atomic.Bool
@@ -1297,6 +1339,12 @@ func TestC10Lnwire(t *testing.T) {
 			vacuous = append(vacuous, fmt.Sprintf("%s: %d evaluations, %d accepted", n, pc[0], pc[1]))
 		}
 	}
+	xrNoBase := []string{}
+	for _, cc := range co.codecs {
+		if cc.c.kind == kMsg && a.xrPerCodec[cc.c.name] == 0 {
+			xrNoBase = append(xrNoBase, cc.c.name)
+		}
+	}
 	if len(a.samples) == 0 {
 		a.samples = []any{"(no sample returned by the workers)"}
 	}
@@ -1311,7 +1359,7 @@ func TestC10Lnwire(t *testing.T) {
 			"so that the re-encode / re-decode / equality / fixpoint clauses O3-O5 all ran on it; distinct = distinct (codec, byte string) pairs: structural for the all-short-bodies family, " +
 			"a merged set of 64-bit hashes for all other families",
 		"samples":                               a.samples,
-		"exhaustive":                            len(a.capsHit) == 0 && !broken.Load() && onlyCodec == "",
+		"exhaustive":                            len(a.capsHit) == 0 && !broken.Load() && onlyCodec == "" && onlyFam == "",
 		"caps_hit":                              a.capsHit,
 		"lnwire_outcomes":                       a.outcomes,
 		"lnwire_per_codec":                      perCodec,
@@ -1343,6 +1391,10 @@ func TestC10Lnwire(t *testing.T) {
 		"lnwire_field_sweep_fields_per_codec":   a.sweptTypes,
 		"lnwire_field_sweep_range":              fmt.Sprintf("[0,%d] + {2^k-1,2^k,2^k+1 : k<=width} + max (+ -1,-2,min for signed)", sweepUpto(thorough)),
 		"lnwire_inputs_over_65535_skipped":      int(a.oversize),
+		"lnwire_extrec_record_sets":             int(a.xrCases),
+		"lnwire_extrec_bases_used":              int(a.xrBases),
+		"lnwire_extrec_bases_per_codec":         a.xrPerCodec,
+		"lnwire_extrec_codecs_without_base":     xrNoBase,
 		"lnwire_codecs_single_outcome":          vacuous,
 		"lnwire_corpus_notes":                   co.notes,
 		"lnwire_workers":                        nw,
@@ -1350,6 +1402,7 @@ func TestC10Lnwire(t *testing.T) {
 	run.Assumptions = append(run.Assumptions,
 		"lnwire half: 'all byte strings up to 65535 bytes' is covered through all bodies <= 2 (quick) / <= 3 (thorough) bytes and the stated single-edit neighbourhoods of a fixed corpus; seeds come from the repository's RandTestMessage generators with fixed rapid seeds (sampling) - the enumeration around each seed is exhaustive",
 		"lnwire half: 'never hangs' is decided by a deterministic read-count budget (8*len+256 reads on the message reader); a decode that spins without reading is killed by a no-progress watchdog, its input is saved, skipped and named in caps_hit (exhaustive:false, no verdict) unless VERIF_C10_STALL_VERDICT=violation asks for a 3x re-run confirmation",
+		"lnwire half, extrec family: the extension TLV stream of a base encoding is located by observing the real decoder's reads (the first 512-byte-buffer read = io.ReadAll in ExtraOpaqueData.Decode, or a 1-byte read at offset 2 for decoders that hand the reader to a tlv.Stream) and must parse as a canonical stream with the reference parser; bases where it cannot be located, that are no decode/encode fixpoint or exceed 2048 bytes are skipped and counted (lnwire_outcomes extrec-base:*, lnwire_extrec_codecs_without_base); the known record types of a message type are learnt from its encoder's output on the corpus values and from the tlv.TlvTypeN names in its struct, unknown even types may be refused, onion failures are not part of the family",
 		"lnwire half: lnwire is compiled against tlv@v1.4.0 from the module cache (as lnd itself is); the tlv working tree is checked by the tlv half",
 		"lnwire half: allocation is measured as runtime TotalAlloc delta around the decode call in a single-goroutine GOMAXPROCS=1 worker; bounds are 64KiB*"+strconv.Itoa(allocCPlain)+" (plain) and 64KiB*"+strconv.Itoa(allocCHeavy)+" (codecs with a signature vector, a feature-bit map or zlib data), fixed from the maxima measured on the unchanged tree with >= 2x head-room")
 	code := run.Finish(cov)
@@ -1408,6 +1461,11 @@ func (a *agg) add(co *corpus, it item, r *itemResult, run *evid.Run) {
 		a.sweptTypes[c.name]++
 	}
 	a.oversize += r.Oversize
+	a.xrCases += r.XrCases
+	a.xrBases += r.XrBases
+	if it.Family == "extrec" {
+		a.xrPerCodec[c.name] += int(r.XrBases)
+	}
 	a.secsFam[it.Family] += r.Secs
 	a.secsCodec[c.name] += r.Secs
 	if r.AllocMax > a.allocCodec[c.name] {
@@ -1458,6 +1516,9 @@ func (w *worker) caseAt(it item, ord int) replayCase {
 			}
 		})
 		return rc
+	}
+	if it.Family == "extrec" {
+		return w.xrCaseAt(cc, w.curSeed, ord)
 	}
 	o := -1
 	found := false
@@ -1577,6 +1638,8 @@ func genFromDesc(d map[string]any) func() any {
 		t := lnwire.MessageType(num("type"))
 		n := num("ids")
 		return func() any { return zlibValue(t, n) }
+	case "extrec":
+		return xrGenFromDesc(d)
 	case "failctor":
 		gens := failureValues(lnwire.FailCode(num("code")))
 		if i := num("i"); i < len(gens) {
@@ -1681,7 +1744,30 @@ func replayLnwire(t *testing.T, run *evid.Run, path string) {
 	w := &worker{co: co, verbose: true, shortLen: 2, res: &itemResult{Outcomes: map[string]int64{}}}
 	w.curItem = item{Family: rc.Family}
 	fmt.Printf("INFO replaying a %s case of codec %s (family %s)\n", rc.Kind, rc.Codec, rc.Family)
-	if rc.Kind == "field" {
+	if rc.Kind == "extrec" {
+		sb, _ := hex.DecodeString(rc.Seed)
+		s := &seed{name: "replay-base", full: append(append([]byte{}, c.prefix[:c.prefixLen()]...), sb...), desc: rc.Desc}
+		if g, _ := rc.Desc["gen"].(string); g == "zero" {
+			pfx := c.prefix
+			s.gen = func() any {
+				m, _ := lnwire.MakeEmptyMessage(lnwire.MessageType(binary.BigEndian.Uint16(pfx[:])))
+				return m
+			}
+		} else if rc.Desc != nil {
+			s.gen = genFromDesc(rc.Desc)
+		}
+		if rc.Seed == "" && s.gen != nil {
+			safely(func() { s.full, _ = c.encode(s.gen()) })
+			if len(s.full) >= c.prefixLen() {
+				sb = s.full[c.prefixLen():]
+			}
+		}
+		w.curSeed = s
+		w.curItem = item{Family: "extrec"}
+		U := fromX(rc.Recs)
+		fmt.Printf("INFO base body %s; records merged into its extension stream: %s\n", hexs(sb, 64), showU(U))
+		w.runExtrec(co.codecs[0], s, -1, U)
+	} else if rc.Kind == "field" {
 		gen := genFromDesc(rc.Desc)
 		if gen == nil {
 			fmt.Printf("INFO cannot rebuild the value from %v\n", rc.Desc)
@@ -1722,7 +1808,7 @@ func replayLnwire(t *testing.T, run *evid.Run, path string) {
 			name = "oversize"
 		}
 		wf := false
-		if g, _ := rc.Desc["gen"].(string); (g == "rapid" && rc.Desc["clear"] == nil) || g == "failctor" {
+		if g, _ := rc.Desc["gen"].(string); (g == "rapid" && rc.Desc["clear"] == nil) || g == "failctor" || g == "extrec" {
 			wf = true
 		}
 		s := &seed{name: name, gen: gen, wellFormed: wf, desc: rc.Desc}
